@@ -144,6 +144,34 @@ mod verif_c13 {
         }
     }
 
+
+    // C08 leg, split from the value obligations so that the (expensive) division result is sliced away:
+    // for ANY three f64 (NaN, +-inf, reversed, equal): from_min_max returns, and normalize on an accepted range returns.
+    #[kani::proof]
+    #[kani::stub(alloc::fmt::format, stub_format)]
+    fn c13_o4_total_nopanic() {
+        let min: f64 = kani::any();
+        let max: f64 = kani::any();
+        let v: f64 = kani::any();
+        match Range::from_min_max(min, max) {
+            Ok(r) => {
+                kani::cover!(min == f64::NEG_INFINITY);
+                kani::cover!(min == max);
+                kani::cover!(v.is_nan());
+                assert!(min <= max);
+                let _n = r.normalize(v);
+                core::mem::forget(r);
+            }
+            Err(e) => {
+                kani::cover!(min.is_nan());
+                kani::cover!(min > max);
+                // only an unusable pair may be rejected
+                assert!(!(min <= max));
+                core::mem::forget(e);
+            }
+        }
+    }
+
     // O13.7: integer-typed ranges
     fn int_range_body(lim: i64) {
         let min: i64 = kani::any();
